@@ -95,6 +95,12 @@ func (f *FileReaderImpl) FileExists(path string) (bool, error) {
 func (f *FileReaderImpl) collectFromDirectory(dirPath string, recursive bool, includePatterns, excludePatterns []string) ([]string, error) {
 	var files []string
 
+	// filepath.Walk does not follow a symbolic link given as its root. With a trailing
+	// separator the operating system resolves the link, so "link" selects what "link/" selects
+	if li, err := os.Lstat(dirPath); err == nil && li.Mode()&os.ModeSymlink != 0 && !strings.HasSuffix(dirPath, string(filepath.Separator)) {
+		dirPath += string(filepath.Separator)
+	}
+
 	walkFunc := func(path string, info os.FileInfo, err error) error {
 		if err != nil {
 			// Log warning but continue processing other files
